@@ -200,7 +200,7 @@ class SpectralDensity(DFunction, UnitsManaged):
                     
                 elif ftype == "Underdamped":
            
-                    self._make_underdamped(params)
+                    self._make_underdamped(prms)
                     
                 elif ftype == "B777":
                     
